@@ -544,6 +544,14 @@ def corpus():
     # 18 execute without result, result overwriting a loop counter
     add([("f1", False, [["user", "i1"], ["exec", "a1", ""], ["exec", "a2", "x"],
                         ["while", ["lt", V("x"), C(2)], [["bot", "b1"], INC("x")]], ["bot", "b2"]])])
+    # 19 subflow whose only statement calls a subflow that waits for the user
+    add([("f1", False, [["user", "i1"], ["do", 2], ["bot", "b2"]]),
+         ("s1", True, [["do", 3]]),
+         ("s2", True, [["user", "i2"], ["bot", "b1"]])])
+    # 20 nested call entered in one silent run, the caller continues with an action after the call
+    add([("f1", False, [["user", "i1"], ["set", "x", C(0)], ["do", 2], ["bot", "b2"]]),
+         ("s1", True, [["do", 3], ["exec", "a1", "r"]]),
+         ("s2", True, [["user", "i2"], INC("x")])])
     return P
 
 
